@@ -8,12 +8,20 @@ CFG = {
             "slots of another shape) and operands with seven zero patterns (none, leading, trailing, interleaved, all-zero, random, explicitly stored zeros), "
             "dimensions 0..7, rectangular matrices 0..5 x 0..5; every result element (value and derivative slots) is compared exactly with a dense model computed "
             "with free-standing library scalars, hence all storage combinations with each other. non-trivial = at least one position where one operand is "
-            "zero/absent and another is not (or a receiver with prior content for the receiver-only operations); distinct by type+operation+operands hash",
+            "zero/absent and another is not (or a receiver with prior content for the receiver-only operations); distinct by type+operation+operands hash. "
+            "constvec/<T> (seven non-Real types): lock-step histories of 4..14 read-only steps on a SparseConst<T>Vector built from an unsorted index/value list "
+            "with zero values (New), a sorted list (Unsafe) or a dense vector, and on its ConstSlice views (from 0 and with offset, nested) and clones: ConstAt, "
+            "Float64At/Float32At/IntAt, ConstIterator, ConstIteratorFrom (incl. behind the last entry), ConstJointIterator with a dense vector containing zeros, "
+            "use as operand of dense and sparse receivers (VaddV/VmulV/VsubV), Equals against a dense copy and a copy differing in one position, dense.Set; every "
+            "observation is compared with a []float64 model of each object, and all objects are re-read at the end (reads must not change any other object)",
     "min_cov": {"op:VaddV": 100, "op:VmulV": 100, "op:VdivV": 100, "op:VmulS": 100, "op:VdotV": 300, "op:MdotV": 300, "op:VdotM": 300, "op:MaddM": 100, "op:MmulM": 100,
                 "op:MdotM": 300, "op:Outer": 300, "op:Vector.Set": 300, "op:Matrix.Set": 300, "op:SetIdentity": 300, "op:Reset": 300, "op:Equals": 600,
                 "op:AsSparseVector": 300, "op:AsDenseMatrix": 300, "op:NewSparseVector": 300, "op:NewSparseMatrix": 300, "op:AsMatrix": 300,
                 "type:Int8": 500, "type:Int16": 500, "type:Int32": 500, "type:Int64": 500, "type:Int": 500, "type:Float32": 500, "type:Float64": 500, "type:Real32": 500, "type:Real64": 500,
-                "combo:recv=sparse,a=sparse-const,b=dense": 50, "combo:recv=dense,a=sparse,b=sparse": 50},
+                "combo:recv=sparse,a=sparse-const,b=dense": 50, "combo:recv=dense,a=sparse,b=sparse": 50,
+                "constvec:op:ConstSlice": 20000, "constvec:slice-from-0": 10000, "constvec:slice-offset": 8000, "constvec:op:ConstAt": 40000, "constvec:op:ConstIterator": 40000,
+                "constvec:op:ConstIteratorFrom": 8000, "constvec:op:ConstJointIterator": 8000, "constvec:op:operand:dense-recv": 8000, "constvec:op:operand:sparse-recv": 8000,
+                "constvec:op:Equals": 8000, "constvec:op:TypedAt": 8000, "constvec:built:New": 5000, "constvec:built:Unsafe(sorted)": 2500, "constvec:zero-values-in-list": 4000},
     "min_evaluations": 100000,
     "tolerances": "exact comparison (== with -0==+0, NaN==NaN; missing derivative slots read as 0); operands k/8 resp. small integers, divisors powers of two; Equals uses epsilon 0.5 with perturbations 0, 0.25, 1",
     "assumptions": ["expected element = fresh library scalar of the receiver's element type .Op(a_i, b_i): scalar arithmetic itself is C01/C02's subject",
